@@ -245,7 +245,8 @@ def check_set_default_later(sh, obj, case, is_multi, accepts, label):
             return
         after = obj.default
         if not ok:
-            if after is not before or (isinstance(after, list) and after != before_copy):
+            # equal in value and type: the object may hand out a copy of a list default, so identity says nothing
+            if type(after) is not type(before) or after != before_copy or (not isinstance(after, list) and after is not before):
                 sh.violate("set-default-later", case, "%s.set_default(%r) was refused but the default changed from %r to %r" % (label, new, before_copy, after))
                 return
         else:
